@@ -399,7 +399,7 @@ def WindowPrefix (r : RollerCfg) (d : Disk) (ws : List Bytes) : Prop :=
   ∀ j, j < ws.length → j < r.count → slot r d (r.base + j) = ws[j]?
 
 theorem rollU32_prefix (r : RollerCfg) (file : Path) (d : Disk) (x : Bytes) (ws : List Bytes)
-    (hg : r.base + r.count < U32_MOD) (hc : r.count ≠ 0)
+    (hg : r.base + r.count ≤ U32_MOD) (hc : r.count ≠ 0)
     (hinj : NamesInj r) (hfa : FileApart r file) (hw : WindowPrefix r d ws) :
     (rollU32 r file (fun _ => false) (d.set file x)).1.isOk = true ∧
     WindowPrefix r (rollU32 r file (fun _ => false) (d.set file x)).2 (r.enc x :: ws) ∧
@@ -418,7 +418,7 @@ theorem rollU32_prefix (r : RollerCfg) (file : Path) (d : Disk) (x : Bytes) (ws 
     rw [List.getElem?_eq_getElem (by omega)]
 
 theorem rollMany_prefix (r : RollerCfg) (file : Path)
-    (hg : r.base + r.count < U32_MOD) (hc : r.count ≠ 0)
+    (hg : r.base + r.count ≤ U32_MOD) (hc : r.count ≠ 0)
     (hinj : NamesInj r) (hfa : FileApart r file) (xs : List Bytes) :
     ∀ (d : Disk) (ws : List Bytes), WindowPrefix r d ws →
       WindowPrefix r (rollMany r file xs d) (xs.reverse.map r.enc ++ ws) := by
@@ -487,7 +487,7 @@ theorem getWriter_keep (c : AppCfg) (hfa : FileApart c.roller c.file) (dec : Byt
 
 /-- `processRoll` inside the `u32` guard, in terms of the shared roller model -/
 theorem processRoll_guarded (c : AppCfg) (fault : Nat → Bool) (st : AppState)
-    (hg : c.roller.base + c.roller.count < U32_MOD) :
+    (hg : c.roller.base + c.roller.count ≤ U32_MOD) :
     processRoll c fault st =
       (match (fixedWindowRoll c.roller c.file fault st.disk).1 with
         | .ok _ => AppRes.ok
@@ -501,7 +501,7 @@ theorem processRoll_guarded (c : AppCfg) (fault : Nat → Bool) (st : AppState)
 /-- the append whose roll fails: its result is `err`, never a panic; the disk it leaves is a crash
 state of the rotation that started on `rotationStart`; the writer is closed -/
 theorem appendOp_roll_outcome (c : AppCfg) (fault : Nat → Bool) (rec : Bytes) (st : AppState)
-    (hg : c.roller.base + c.roller.count < U32_MOD)
+    (hg : c.roller.base + c.roller.count ≤ U32_MOD)
     (hinv : st.writerOpen = true → st.openedOnce = true) :
     (appendOp c fault true rec st).1 ≠ .panic ∧
     ((appendOp c fault true rec st).1 = .err →
